@@ -454,7 +454,8 @@ def _D(ch):
 
 _G = {"t": "g", "c": "", "m": "", "to": [], "ch": []}
 FILE_KINDS = [_F("A", "644"), _F("B", "odd"), _F("A", "755"), _F("B", "oddnx"), _F("B", "644")]
-LINK_TARGETS = [["..", "od"], ["..", "of"], ["..", "repo-x", "f"], ["..", "repo-x"], ["", "p", "od"], ["", "p", "of"], [".git"], [".git", "config"], [".git", "hooks"],
+LINK_TARGETS = [["..", "od"], ["..", "of"], ["..", "repo-x", "f"], ["..", "repo-x"], ["..", "tmp"], [".git", "hooks", "x"],
+                ["..", "repo-x", "x"], ["", "p", "tmp"], ["", "p", "od"], ["", "p", "of"], [".git"], [".git", "config"], [".git", "hooks"],
                 ["a"], ["d"], ["e"], ["x"], ["d", "x"], ["..", "ol"], ["."], [".."], ["..", ".."], ["..", "od", "e"],
                 [".git", "hooks", "h"], ["a", "x"]]
 CHILD_LINKS = [["..", "..", "od"], ["..", "..", "of"], ["..", "a"], ["..", ".git", "config"], ["x"], ["", "p", "od", "e"]]
